@@ -130,32 +130,40 @@ def check(ctx, rep):
     adt = core.adts.get('crux_core::bridge::request_serde::ResolveSerialized')
     vidx = {v['name']: v['idx'] for v in adt['variants']}
 
-    def variant_edges(name):
+    def discr_tests():
+        """switches on the discriminant of a registry entry: [(switch block, terminator, block of the discriminant read)]"""
         out = []
         for sb, st in res.terms('switch'):
             for o in origins(res, st['a']):
                 if o.kind == 'rvalue' and o.stmt['rv']['k'] == 'discr' and path_matches(o.stmt['rv']['a'].get('adt'), 'request_serde::ResolveSerialized'):
-                    tgt = None
-                    for v, b in st['arms']:
-                        if v == vidx[name]:
-                            tgt = b
-                    if tgt is None:
-                        tgt = st['otherwise']
-                    out.append(((sb, tgt), o.bb))
+                    out.append((sb, st, o.bb))
+        return out
+
+    def variants_reaching(sb, st, target):
+        """variants of the entry under which `target` is reachable from this test (path-sensitive in bool temporaries)"""
+        out = set()
+        for name, idx in vidx.items():
+            tgt = None
+            for v, b in st['arms']:
+                if v == idx:
+                    tgt = b
+            if tgt is None:
+                tgt = st['otherwise']
+            if target in res.reachable_ps([tgt], removed_blocks=[sb]):
+                out.add(name)
         return out
     ok = bool(removes) and bool(rcalls)
     for rmb, rmt in removes:
-        this_ok = False
-        # (a) on the Never edge of a test made after a resolve call
-        for edge, test_bb in variant_edges('Never'):
-            after = any(res.dominates(rb, test_bb) and rb != test_bb for rb, _ in rcalls)
-            if after and rmb not in res.reachable([0], removed_edges=[edge]) and rmb in res.reachable([0]):
-                this_ok = True
-        # (b) a one-shot entry taken out in order to be consumed: on the Once edge, and the removed value is what gets resolved
-        for edge, test_bb in variant_edges('Once'):
-            consumed = any(any(o.kind == 'call' and o.bb == rmb for o in origins(res, t['args'][0])) for bb, t in rcalls)
-            if consumed and rmb not in res.reachable([0], removed_edges=[edge]) and rmb in res.reachable([0]):
-                this_ok = True
+        feasible = set(vidx)
+        after_resolve = False
+        for sb, st, test_bb in discr_tests():
+            if not res.dominates(sb, rmb):
+                continue
+            feasible &= variants_reaching(sb, st, rmb)
+            if any(res.dominates(rb, test_bb) and rb != test_bb for rb, _ in rcalls):
+                after_resolve = True
+        consumed = any(any(o.kind == 'call' and o.bb == rmb for o in origins(res, t['args'][0])) for bb, t in rcalls)
+        this_ok = (feasible == {'Never'} and after_resolve) or (feasible == {'Once'} and consumed)
         ok = ok and this_ok
     rep.expect('R09.b', ok, 'resume|remove-when-unresolvable',
                'an entry is removed only on the Never edge of a test made after resolve() (or as a one-shot being consumed)',
